@@ -181,6 +181,9 @@ def analyse(run: Any, expects: Dict[tuple, Expect], retire_probe: bool = True) -
             out = run.outcomes.get((c, i))
             if ex is None or out is None:
                 continue
+            if ex.kind == "cprio":
+                V.extend(_cprio(run, (c, i, 0), ex, out))
+                continue
             V.extend(_outcome(run, (c, i, 0), ex, out))
     return V
 
@@ -211,6 +214,8 @@ def _outcome(run: Any, key: tuple, ex: Expect, out: dict) -> List[dict]:
         elif out["status"] == "exc" and out["type"] not in ex.raises:
             V.append(viol("wrongexc", f"expected one of {ex.raises}, raised {out['type']}: {out['msg'][:200]}", op=key,
                           tags=["exc:" + out["type"]], exc_type=out["type"]))
+        elif out["status"] == "exc" and ex.fault_paths:
+            V.extend(_failure_identity(run, key, ex, out))
     elif ex.kind == "none":
         if out["status"] == "exc":
             V.append(viol("raise", f"operation raised {out['type']}: {out['msg'][:300]}", op=key,
@@ -222,6 +227,82 @@ def _outcome(run: Any, key: tuple, ex: Expect, out: dict) -> List[dict]:
                               tags=["exc:" + out["type"]]))
         elif freeze(out["value"]) != freeze(ex.value):
             V.append(viol("rerun", f"second run returned {out['value']!r:.200}, a fresh run gives {ex.value!r:.200}", op=key))
+    return V
+
+
+def _cprio(run: Any, key: tuple, ex: Expect, out: dict) -> List[dict]:
+    """C07.a-c: tawazi's compound-priority table equals own + sum over distinct descendants for all real nodes."""
+    if out["status"] != "ok":
+        return [viol("raise", f"reading the priority table raised {out['type']}: {out['msg'][:200]}", op=key, tags=["exc:" + out["type"]])]
+    table = run.tables.get(run.inst_table.get(ex.inst, ""), {})
+    mg = model_graph(run.spec, spec_dag_of(run, ex.inst), table, ex.overrides or {})
+    got = out["value"]
+    tags = ["selection"] if ex.selected is not None else []
+    bad = []
+    for nid, want in mg["cp"].items():
+        a = mg["attrs"][nid]
+        if ex.selected is not None and (a["role"] != "main" or len(a["path"]) != 1 or a["path"][0][1] not in ex.selected):
+            continue
+        if nid in got and got[nid] != want:
+            bad.append((nid, got[nid], want))
+        elif nid not in got and ex.selected is None:
+            bad.append((nid, None, want))
+    if bad:
+        return [viol("cprio_table", f"compound priority differs from own + distinct descendants: {bad[:4]} (node, tawazi, reference)",
+                     op=key, tags=tags)]
+    return []
+
+
+def ref_order(in_graph: Set[str], expected_exec: Set[str], deps: Dict[str, Set[str]], cp: Dict[str, int]) -> Optional[List[str]]:
+    """Greedy list schedule for max_concurrency == 1; None when a tie makes the order non-unique."""
+    done: Set[str] = set()
+    order: List[str] = []
+    remaining = set(in_graph)
+    while remaining:
+        ready = [n for n in remaining if all(d in done or d not in in_graph for d in deps.get(n, ()))]
+        if not ready:
+            return None
+        best = max(cp[n] for n in ready)
+        b = [n for n in ready if cp[n] == best]
+        if len(b) > 1:
+            return None
+        n = b[0]
+        remaining.discard(n)
+        done.add(n)
+        if n in expected_exec:
+            order.append(n)
+    return order
+
+
+def _failure_identity(run: Any, key: tuple, ex: Expect, out: dict) -> List[dict]:
+    """C14.b: the exception names a node that failed before the raise, its call location, and carries the original."""
+    V: List[dict] = []
+    e = out["exc"]
+    injected = {nid: x for (op, nid), x in run.injected.items() if op is not None and tuple(op) == tuple(key)}
+    if any(e is x for x in injected.values()):
+        return V  # the original exception itself (BaseException from a node, or a node without location)
+    inst = run.op_inst.get(key)
+    table = run.tables.get(run.inst_table.get(inst, ""), {}) if inst else {}
+    if out["type"] != "TawaziBaseException":
+        V.append(viol("wrongexc", f"call raised {out['type']}: {out['msg'][:200]} which is neither a wrapped nor an injected failure",
+                      op=key, tags=["exc:" + out["type"]], exc_type=out["type"]))
+        return V
+    msg = out["msg"]
+    named = None
+    for nid in injected:
+        info = table.get(nid)
+        if info is None or info["path"] is None:
+            continue
+        dn, idx = info["path"][-1]
+        loc = stmt_location(dn, idx)
+        if f"ExecNode {nid} at {loc}" in msg:
+            named = nid
+            break
+    if named is None:
+        V.append(viol("fail_identity", f"exception message {msg!r:.200} names none of the failed nodes {sorted(injected)} with its call location",
+                      op=key))
+    elif e.__cause__ is not injected[named]:
+        V.append(viol("fail_identity", f"__cause__ of the raised exception is {e.__cause__!r:.100}, not the exception raised by {named}", op=key))
     return V
 
 
@@ -275,6 +356,8 @@ def _analyse_exec(run: Any, ea: ExecAnalysis, retire_probe: bool, aborted: bool,
         expected_exec &= in_graph
         expected_deact &= in_graph
 
+    from .ref import gen_descendants
+    desc_of = gen_descendants(mg["succ"])
     entered: collections.Counter = collections.Counter()
     enter_seq: Dict[str, int] = {}
     exit_seq: Dict[str, int] = {}
@@ -363,9 +446,10 @@ def _analyse_exec(run: Any, ea: ExecAnalysis, retire_probe: bool, aborted: bool,
             for d in deps.get(nid, ()):
                 if (d in all_entered or d in expected_exec) and d not in exit_seq:
                     V.append(viol("order", f"{nid} entered before its dependency {d} returned", op=opkey, tok=tok, seq=seq))
-            for d in deps.get(nid, ()):
-                if d in failed_nodes:
-                    V.append(viol("dependent_of_failed", f"{nid} started although its dependency {d} failed", op=opkey, tok=tok, seq=seq))
+            if failed_nodes:
+                bad = [f for f in failed_nodes if nid in desc_of.get(f, ())]
+                if bad:
+                    V.append(viol("dependent_of_failed", f"{nid} started although it depends on the failed node {bad[0]}", op=opkey, tok=tok, seq=seq))
             # C04.b/c thread identity
             if a["res"] == "main_thread":
                 if part != ea.owner:
@@ -451,6 +535,15 @@ def _analyse_exec(run: Any, ea: ExecAnalysis, retire_probe: bool, aborted: bool,
                                   f"finished but unobserved: {unobs}", op=opkey, tok=tok, seq=seq,
                                   tags=["episode:" + "+".join(episode_kinds or ["none"])] + (["unobserved_done"] if unobs else [])))
 
+    # ---- C07.d: with max_concurrency == 1 and a tie-free reference table the execution order is unique
+    if mc == 1 and not failing and not aborted and op_ok:
+        want = ref_order(in_graph, expected_exec, deps, cp)
+        got_order = [e[2] for _, e in ea.events if e[0] == "enter" and e[2] in attrs]
+        if want is not None and got_order != want:
+            V.append(viol("order_mc1", f"execution order with max_concurrency=1 is {got_order}, reference (greedy by compound priority) {want}",
+                          op=opkey, tok=tok, tags=sel_tag))
+        elif want is not None:
+            run.rt.probe("mc1_orders_checked")
     # ---- at the end of a normally returning execution
     if not failing and not aborted and op_ok:
         for nid in expected_exec:
